@@ -141,4 +141,104 @@ class StackRefined(TypedOps):
         return (60, 2) if tier == "quick" else (200, 4)
 
 
-FACETS = [TypedOps(), StackPlain(), StackRefined()]
+class RedeclaredField(Facet):
+    """The documented way to (re)declare a field is Prod.__init__.__annotations__[f] = T before
+    extracting a grammar. After programs of a first grammar were produced, one field is
+    re-declared with another type, a new grammar is extracted from the same classes and every
+    program produced from it must be well-typed for the NEW declaration."""
+
+    name = "redeclared_field"
+
+    def budget(self, tier):
+        return (60, 4) if tier == "quick" else (300, 16)
+
+    def strategy(self, tier):
+        from hypothesis import strategies as st
+
+        newt = st.sampled_from([["int"], ["float"], ["bool"], ["str"], ["ann", ["int"], ["IntRange", 0, 3]], ["ann", ["str"], ["VarRange", ["x", "y"]]], ["list", ["bool"]], "abstract"])
+        fl = Flags(dependent=False, user_mh=False, max_concrete=5)
+        return st.builds(
+            lambda case, ci, fi, nt: {**case, "ci": ci, "fi": fi, "new_type": nt},
+            world_cases(fl, reps=("tree", "ge", "sge", "dsge"), deciders=("maxdepth", "pigrow"), max_ops=5, depth_extras=(1, 2, 3), with_map=False),
+            st.integers(0, 20),
+            st.integers(0, 5),
+            newt,
+        )
+
+    def run(self, case, rec):
+        from vk.refmodel import SpecInfo
+        from vk.spec import redeclare, te_refs
+
+        rep = case["rep"]
+        try:
+            w1 = World(case)
+        except Exception:  # noqa: BLE001
+            rec.discard()
+            return
+        try:
+            if not w1.productive():
+                rec.discard()
+                return
+            try:
+                w1.build()
+                w1.run(lambda ev, w: [w.phenotype(i) for i in ev.outputs] if ev.exc is None else None)
+            except Exception:  # noqa: BLE001
+                pass
+            with_fields = [c for c in case["spec"]["concretes"] if c["fields"]]
+            if not with_fields:
+                rec.discard()
+                return
+            c = with_fields[case["ci"] % len(with_fields)]
+            fn, old_t = c["fields"][case["fi"] % len(c["fields"])]
+            nt = case["new_type"]
+            if nt == "abstract":
+                nt = ["ref", case["spec"]["abstracts"][0]["name"]]
+            if nt == old_t:
+                rec.discard()
+                return
+            spec2 = redeclare(w1.mat, c["name"], fn, nt)
+            case2 = {**case, "spec": spec2}
+            try:
+                w2 = World(case2, mat=w1.mat)
+            except Exception:  # noqa: BLE001
+                rec.discard()
+                return
+            if not w2.productive():
+                rec.discard()
+                return
+            try:
+                w2.build()
+            except Exception:  # noqa: BLE001
+                rec.discard()
+                return
+            info = w2.info
+            start_t = ["ref", info.start]
+            rec.label("rep:" + rep, "new-type:" + (nt[0] if nt[0] != "ann" else "ann"))
+            rec.sample({"spec": spec_str(case["spec"]), "redeclared": f"{c['name']}.{fn}: {old_t} -> {nt}", "rep": rep, "ops": case["ops"]})
+
+            def obs(ev, w):
+                if ev.exc is not None:
+                    rec.discard()
+                    return
+                for i in ev.outputs:
+                    try:
+                        p = w.phenotype(i)
+                    except Exception:  # noqa: BLE001
+                        rec.discard()
+                        continue
+                    errs = well_typed(p, start_t, info)
+                    cc = canon(p, info)
+                    if c["name"] in str(cc):
+                        rec.nontrivial((rep, cc, c["name"], fn))
+                    for er in errs[:2]:
+                        rec.fail(
+                            f"C01/redeclared/{er.clause}",
+                            f"{ev.kind} ({rep}) after re-declaring {c['name']}.{fn} from {old_t} to {nt} and extracting a new grammar: {er!r}; program {canon_str(cc)}; grammar {spec_str(spec2)}",
+                        )
+
+            w2.run(obs)
+        finally:
+            w1.cleanup()
+
+
+FACETS = [TypedOps(), StackPlain(), StackRefined(), RedeclaredField()]
